@@ -159,9 +159,11 @@ def gen_params(rng, enc, spt):
 
 
 def encode_track(enc, cyl, head, sectors, params=None, size_code=1):
-    """sectors: list of (record_number, 256-byte payload) in physical order.
+    """sectors: list of (record_number, 256-byte payload[, data mark byte]) in physical order; the data mark
+    defaults to 0xFB (0xF8 = deleted data; 0xF9/0xFA are the other marks a WD177x can write).
     Returns (cells, regions)."""
     p = params or default_params(enc)
+    sectors = [(t[0], t[1], t[2] if len(t) > 2 else 0xFB) for t in sectors]
     if enc == 'fm':
         w = FmWriter()
         s = len(w.cells)
@@ -171,7 +173,7 @@ def encode_track(enc, cyl, head, sectors, params=None, size_code=1):
             w.byte(0xFC, 0xD7)
         w.fill(0xFF, p['gap1'])
         w.mark('gap1', None, s)
-        for rec, payload in sectors:
+        for rec, payload, dmark in sectors:
             s = len(w.cells)
             w.fill(0x00, p['sync'])
             w.mark('sync', rec, s)
@@ -193,13 +195,13 @@ def encode_track(enc, cyl, head, sectors, params=None, size_code=1):
             w.fill(0x00, p['sync'])
             w.mark('gap2', rec, s)
             s = len(w.cells)
-            w.byte(0xFB, 0xC7)
+            w.byte(dmark, 0xC7)
             w.mark('datamark', rec, s)
             s = len(w.cells)
             w.bytes_(payload)
             w.mark('data', rec, s)
             s = len(w.cells)
-            c = crc16_fast(bytes([0xFB]) + bytes(payload))
+            c = crc16_fast(bytes([dmark]) + bytes(payload))
             w.byte(c >> 8)
             w.byte(c & 0xFF)
             w.mark('datacrc', rec, s)
@@ -221,7 +223,7 @@ def encode_track(enc, cyl, head, sectors, params=None, size_code=1):
         w.byte(0xFC)
     w.fill(0x4E, p['gap1'])
     w.mark('gap1', None, s)
-    for rec, payload in sectors:
+    for rec, payload, dmark in sectors:
         s = len(w.cells)
         w.fill(0x00, p['sync'])
         w.a1()
@@ -249,13 +251,13 @@ def encode_track(enc, cyl, head, sectors, params=None, size_code=1):
         w.a1()
         w.mark('gap2', rec, s)
         s = len(w.cells)
-        w.byte(0xFB)
+        w.byte(dmark)
         w.mark('datamark', rec, s)
         s = len(w.cells)
         w.bytes_(payload)
         w.mark('data', rec, s)
         s = len(w.cells)
-        c = crc16_fast(b'\xa1\xa1\xa1\xfb' + bytes(payload))
+        c = crc16_fast(b'\xa1\xa1\xa1' + bytes([dmark]) + bytes(payload))
         w.byte(c >> 8)
         w.byte(c & 0xFF)
         w.mark('datacrc', rec, s)
